@@ -1,4 +1,6 @@
 """C01 -- state changes follow the lifecycle graph; terminal states are final."""
+import itertools
+
 from pv import judges, lifecycle, plans, programs
 
 ID = 'C01'
@@ -13,11 +15,13 @@ ASSUMPTIONS = ['lifecycle hooks do not raise (C03 owns that)', 'single-threaded 
                'private attributes are read for coverage accounting only']
 REQUIRED = ['transitions', 'acts_after_terminal', 'samples']
 ALPHABET = [['pause', 'p'], ['play'], ['kill', 'k'], ['resume', ['v']], ['fail', 'f'], ['soon_ok', 'c'], ['soon_raise', 'c']]
-BOUNDS = {'quick': 'basic program family (14) K<=2 exhaustive over slots + 8 random programs (K=2 quarter-sampled)', 'thorough': '+ 40 random programs, K=3 sampled'}
+BOUNDS = {'quick': 'basic program family (14) K<=2 exhaustive over slots + 8 random programs (K=2 quarter-sampled)', 'thorough': 'K=3 exhaustive on 4 key programs, + 40 random programs, K=3 sampled'}
+
+
+DEEP = ('wait_async', 'cont_async', 'out_async', 'wait2')  # thorough: K=3 exhaustive on these
 
 
 def gen_cases(tier, seed):
-    cases = []
     progs = dict(programs.basic_programs())
     rng = plans.rng_for(seed, 'c01')
     for n in range(40 if tier == 'thorough' else 8):
@@ -32,10 +36,12 @@ def gen_cases(tier, seed):
         plist += k2
         if tier == 'thorough':
             plist += list(plans.sampled_placements(rng, n, ALPHABET, 3, 300))
-        for i, plan in enumerate(plist):
-            cases.append({'name': name, 'program': prog, 'plan': plans.uniq(plan, 'q%d' % i), 'drain': True, 'barrage': True,
-                          'probe': False, 'listener': True})
-    return cases
+        deep = ()
+        if tier == 'thorough' and name in DEEP:
+            deep = (p for p in plans.all_placements(n, [['pause', 'p'], ['play'], ['kill', 'k'], ['resume', ['v']], ['fail', 'f']], 3) if True)
+        for i, plan in enumerate(itertools.chain(plist, deep)):
+            yield {'name': name, 'program': prog, 'plan': plans.uniq(plan, 'q%d' % i), 'drain': True, 'barrage': True,
+                          'probe': False, 'listener': True}
 
 
 def run_case(case):
